@@ -305,6 +305,15 @@ class _range_fn:
         return range(self.lo, min(self.hi, bb))
 
 
+
+from . import check_e2e
+
+
+def _e2e_chunks(bb, tier):
+    ch = check_e2e.chunkings(bb)
+    return ch if tier == "thorough" else [ch[0], ch[3], ch[6], ch[7]]
+
+
 @check("C04")
 def c04(tier, seed):
     r = Report("C04", tier, TV, seed)
@@ -320,7 +329,12 @@ def c04(tier, seed):
             bb = check_blake.B.PARAMS[variant][2]
             for lo in range(0, bb, 16):
                 jobs.append((check_blake.c04_finalize, (c, _range_fn(lo, lo + 16), name)))
+    jobs.append((check_blake.c04_update, ("K1", "R4.7")))
+    for name, variant in check_blake.VARIANTS.items():
+        for ch in _e2e_chunks(check_blake.B.PARAMS[variant][2], tier):
+            jobs.append((check_e2e.e2e_blake, ("K1", "R4.6", (name,), (ch,))))
     rets = par.run(r, jobs)
+    r.floor("end-to-end digests (variant x chunking)", sum(x for (fn, _), x in zip(jobs, rets) if fn is check_e2e.e2e_blake and x), 16 if tier == "quick" else 40)
     n = sum(x for (fn, _), x in zip(jobs, rets) if fn is check_blake.c04_compress and x)
     nf = sum(x for (fn, _), x in zip(jobs, rets) if fn is check_blake.c04_finalize and x)
     r.floor("compression instances (word size x machine)", n, 8 if tier == "quick" else 10)
@@ -352,7 +366,13 @@ def c05(tier, seed):
     for t, name, nb, n in hs:
         for lo in range(0, nb + 1, 16):
             jobs.append((check_skein.c05_finalize, ("K1", (name, n), _range_fn(lo, lo + 16))))
+    e2e_types = [(name, n) for t, name, nb, n in hs if tier == "thorough" or n == nb or n in (1, 33, 200)]
+    for t, name, nb, n in hs:
+        if (name, n) in e2e_types:
+            for ch in _e2e_chunks(nb, tier):
+                jobs.append((check_e2e.e2e_skein, ("K1", "R5.6", (ch,), ((name, n),))))
     rets = par.run(r, jobs)
+    r.floor("end-to-end digests (instantiation x chunking)", sum(x for (fn, _), x in zip(jobs, rets) if fn is check_e2e.e2e_skein and x), 24 if tier == "quick" else 180)
     nf = sum(x for (fn, _), x in zip(jobs, rets) if fn is check_skein.c05_finalize and x)
     r.floor("hasher instantiations (state size x output size)", len(hs), 18)
     r.floor("finalisation specialisations", nf, 1266)
@@ -384,7 +404,12 @@ def c07(tier, seed):
     for name, (bits, cols, inner) in check_groestl.HASHERS.items():
         for lo in range(0, 8 * cols, 16):
             jobs.append((check_groestl.c07_finalize, ("K1", name, _range_fn(lo, lo + 16))))
+    for arm in (check_groestl.ARMS if tier == "thorough" else check_groestl.ARMS[:1]):
+        for name, (bits, cols, inner) in check_groestl.HASHERS.items():
+            for ch in _e2e_chunks(8 * cols, tier):
+                jobs.append((check_e2e.e2e_groestl, ("K1", arm, "R7.7", (name,), (ch,))))
     rets = par.run(r, jobs)
+    r.floor("end-to-end digests (variant x chunking x arm)", sum(x for (fn, _), x in zip(jobs, rets) if fn is check_e2e.e2e_groestl and x), 16 if tier == "quick" else 120)
     nf = sum(x for (fn, _), x in zip(jobs, rets) if fn is check_groestl.c07_finalize and x)
     r.floor("finalisation specialisations (variant x buffer position)", nf, 384)
     r.floor("compression chain instances", sum(1 for rule, _ in r.holds if rule == "R7.3") + sum(1 for v in r.violations if v["rule"] == "R7.3"), 12)
@@ -420,7 +445,11 @@ def c06(tier, seed):
         for name in check_jh.HASHERS:
             for lo in range(0, 64, 16):
                 jobs.append((check_jh.c06_finalize, (c, name, _range_fn(lo, lo + 16))))
+    for name in check_jh.HASHERS:
+        for ch in _e2e_chunks(64, tier):
+            jobs.append((check_e2e.e2e_jh, ("K1", "R6.8", (name,), (ch,))))
     rets = par.run(r, jobs)
+    r.floor("end-to-end digests (variant x chunking)", sum(x for (fn, _), x in zip(jobs, rets) if fn is check_e2e.e2e_jh and x), 16 if tier == "quick" else 40)
     nf = sum(x for (fn, _), x in zip(jobs, rets) if fn is check_jh.c06_finalize and x)
     n8 = sum(x for (fn, _), x in zip(jobs, rets) if fn is check_jh.c06_f8 and x)
     r.floor("F8 instances (machines)", n8, 4 if tier == "quick" else 5)
